@@ -17,12 +17,32 @@ def UnquoteRel (X : Ext) : Prop :=
 
 /-! ### the first loop: the scan for the first special byte -/
 
-/-- what the translated scan answers, given the model's index `i` and reason `c` -/
+/-- what the translated scan answers, given the model's index `i` and reason `c`.  At the end of the input (`c = 0`) the loop
+    may answer the function's result itself (`return b, len(b)` inside the loop) or leave normally with the index (the test
+    `i >= len(b)` standing after the loop): the specification covers both ways of writing it -/
 def ScanOut (st : St) (b : Sl) (n : Nat) (r : ProgPrelude.Res (Option (Sl × Int) × Int)) (i c : Nat) : Prop :=
-  (c = 0 → r = .ok (some (b, (n : Int)), (i : Int)) st) ∧
+  (c = 0 → r = .ok (some (b, (n : Int)), (i : Int)) st ∨ r = .ok (none, (i : Int)) st) ∧
   (c = 1 → i = 0 → r = .ok (some (Go.nilSl, 0), 0) st) ∧
   (c = 1 → i ≠ 0 → r = (do let s' ← Go.slice b 0 (i : Int); pure (some (s', (i : Int)), (i : Int)) : M _) st) ∧
   (c = 2 → r = .ok (none, (i : Int)) st)
+
+/-- one round of the model's scan, case by case (the tie below rewrites with these, never inside the translated term) -/
+theorem unquoteScan_stop (x : Nat) (r : Text.Bytes) (k : Nat) (h : x = 13 ∨ x = 10 ∨ x = 34) :
+    PV.unquoteScan (x :: r) k = (k, 1) := by
+  have : (x = 13 || x = 10 || x = 34) = true := by simp only [Bool.or_eq_true, decide_eq_true_eq]; omega
+  simp [PV.unquoteScan, this]
+
+theorem unquoteScan_break (x : Nat) (r : Text.Bytes) (k : Nat) (h1 : ¬ (x = 13 ∨ x = 10 ∨ x = 34)) (h2 : x = 92 ∨ x ≥ 128) :
+    PV.unquoteScan (x :: r) k = (k, 2) := by
+  have a : ¬ (x = 13 || x = 10 || x = 34) = true := by simp only [Bool.or_eq_true, decide_eq_true_eq]; omega
+  have b : (x = 92 || x ≥ 0x80) = true := by simp only [Bool.or_eq_true, decide_eq_true_eq]; omega
+  rw [PV.unquoteScan, if_neg a, if_pos b]
+
+theorem unquoteScan_next (x : Nat) (r : Text.Bytes) (k : Nat) (h1 : ¬ (x = 13 ∨ x = 10 ∨ x = 34)) (h2 : ¬ (x = 92 ∨ x ≥ 128)) :
+    PV.unquoteScan (x :: r) k = PV.unquoteScan r (k + 1) := by
+  have a : ¬ (x = 13 || x = 10 || x = 34) = true := by simp only [Bool.or_eq_true, decide_eq_true_eq]; omega
+  have b : ¬ (x = 92 || x ≥ 0x80) = true := by simp only [Bool.or_eq_true, decide_eq_true_eq]; omega
+  rw [PV.unquoteScan, if_neg a, if_neg b]
 
 theorem scan_tie (X : Ext) (st : St) (b : Sl) (bs : Text.Bytes) (hv : view st b = ints bs) (hl : b.len = bs.length) :
     ∀ (fuel k : Nat) (ki : Int), ki = k → bs.length - k < fuel → k ≤ bs.length →
@@ -45,11 +65,8 @@ theorem scan_tie (X : Ext) (st : St) (b : Sl) (bs : Text.Bytes) (hv : view st b 
         congr 1
         simp [ints, List.getD_eq_getElem?_getD, List.getElem?_map, List.getElem?_eq_getElem c, ← hx]
       rw [hdrop]
-      simp only [PV.unquoteScan]
       by_cases c1 : x = 13 ∨ x = 10 ∨ x = 34
-      · have c1' : (x = 13 || x = 10 || x = 34) = true := by
-          simp only [Bool.or_eq_true, decide_eq_true_eq]; omega
-        rw [if_pos c1']
+      · rw [unquoteScan_stop x _ k c1]
         by_cases ck : k = 0
         · subst ck
           rcases c1 with c1 | c1 | c1 <;> subst c1 <;>
@@ -58,29 +75,24 @@ theorem scan_tie (X : Ext) (st : St) (b : Sl) (bs : Text.Bytes) (hv : view st b 
         · rcases c1 with c1 | c1 | c1 <;> subst c1 <;>
           · go_decide_text [hread, hlen]
             exact ⟨fun h => absurd h (by decide), fun _ h => absurd h ck, fun _ _ => (by simp only [bind_apply, pure_apply]), fun h => absurd h (by decide)⟩
-      · have c1' : ¬ (x = 13 || x = 10 || x = 34) = true := by
-          simp only [Bool.or_eq_true, decide_eq_true_eq]; omega
-        rw [if_neg c1']
-        by_cases c2 : x = 92 ∨ x ≥ 128
-        · have c2' : (x = 92 || x ≥ 0x80) = true := by
-            simp only [Bool.or_eq_true, decide_eq_true_eq]; omega
-          rw [if_pos c2']
-          go_decide_text [hread, hlen]
+      · by_cases c2 : x = 92 ∨ x ≥ 128
+        · rw [unquoteScan_break x _ k c1 c2]
           by_cases c3 : x = 92
-          · go_decide_text []
+          · go_decide_text [hread, hlen]
             exact ⟨fun h => absurd h (by decide), fun h => absurd h (by decide), fun h => absurd h (by decide), fun _ => rfl⟩
-          · go_decide_text []
+          · go_decide_text [hread, hlen]
             exact ⟨fun h => absurd h (by decide), fun h => absurd h (by decide), fun h => absurd h (by decide), fun _ => rfl⟩
-        · have c2' : ¬ (x = 92 || x ≥ 0x80) = true := by
-            simp only [Bool.or_eq_true, decide_eq_true_eq]; omega
-          rw [if_neg c2']
+        · rw [unquoteScan_next x _ k c1 c2]
           go_decide_text [hread, hlen]
           exact ih (k + 1) _ (by omega) (by omega) (by omega)
     · have hk' : k = bs.length := by omega
       go_decide_text [hlen]
       rw [List.drop_of_length_le c]
       simp only [PV.unquoteScan]
-      exact ⟨fun _ => rfl, fun h => absurd h (by decide), fun h => absurd h (by decide), fun h => absurd h (by decide)⟩
+      refine ⟨fun _ => ?_, fun h => absurd h (by decide), fun h => absurd h (by decide), fun h => absurd h (by decide)⟩
+      first
+        | exact Or.inl rfl
+        | exact Or.inr rfl
 
 /-! ### the second loop: unquoting rune by rune -/
 
@@ -88,57 +100,85 @@ theorem runeStr_nat (c : Nat) : Go.runeStr (c : Int) = ints (Utf8.encodeRune c) 
   simp only [Go.runeStr, ints]
   rw [if_neg (by omega), Int.toNat_natCast]
 
+/-- one round of the model's second loop, case by case (the tie below rewrites with these, never inside the translated term) -/
+theorem unquoteLoop_nil (fm : Nat) (resM : Text.Bytes) : PV.unquoteLoop fm [] resM = (resM, []) := by
+  cases fm <;> simp [PV.unquoteLoop]
+
+theorem unquoteLoop_break (fm c : Nat) (r resM : Text.Bytes) (h : c = 13 ∨ c = 10) :
+    PV.unquoteLoop (fm + 1) (c :: r) resM = (resM, c :: r) := by
+  have h' : ((c :: r).head? = some 13 || (c :: r).head? = some 10) = true := by
+    simp only [List.head?_cons, Option.some.injEq, Bool.or_eq_true, decide_eq_true_eq]; exact h
+  rw [PV.unquoteLoop, if_neg (by simp), if_pos h']
+
+theorem unquoteLoop_none (fm c : Nat) (r resM : Text.Bytes) (h : ¬ (c = 13 ∨ c = 10)) (hm : PV.unquoteChar (c :: r) 34 = none) :
+    PV.unquoteLoop (fm + 1) (c :: r) resM = (resM, c :: r) := by
+  have h' : ¬ ((c :: r).head? = some 13 || (c :: r).head? = some 10) = true := by
+    simp only [List.head?_cons, Option.some.injEq, Bool.or_eq_true, decide_eq_true_eq]; exact h
+  rw [PV.unquoteLoop, if_neg (by simp), if_neg h', hm]
+
+theorem unquoteLoop_some (fm c : Nat) (r resM : Text.Bytes) (h : ¬ (c = 13 ∨ c = 10)) (ch : Nat) (tail : Text.Bytes)
+    (hm : PV.unquoteChar (c :: r) 34 = some (ch, tail)) :
+    PV.unquoteLoop (fm + 1) (c :: r) resM =
+      if ch = Utf8.runeError ∧ (c :: r).length - tail.length = 1 then (resM, c :: r)
+      else PV.unquoteLoop fm tail (resM ++ Utf8.encodeRune ch) := by
+  have h' : ¬ ((c :: r).head? = some 13 || (c :: r).head? = some 10) = true := by
+    simp only [List.head?_cons, Option.some.injEq, Bool.or_eq_true, decide_eq_true_eq]; exact h
+  rw [PV.unquoteLoop, if_neg (by simp), if_neg h', hm]
+  simp only []
+  by_cases c2 : ch = Utf8.runeError ∧ (c :: r).length - tail.length = 1
+  · have c2' : (ch = Utf8.runeError && (c :: r).length - tail.length = 1) = true := by
+      simp only [Bool.and_eq_true, decide_eq_true_eq]; exact c2
+    rw [if_pos c2', if_pos c2]
+  · have c2' : ¬ (ch = Utf8.runeError && (c :: r).length - tail.length = 1) = true := by
+      simp only [Bool.and_eq_true, decide_eq_true_eq]; exact c2
+    rw [if_neg c2', if_neg c2]
+
 theorem loop_tie (X : Ext) (hX : UnquoteRel X) (base : Nat) :
-    ∀ (fuel fm : Nat) (str resM : Text.Bytes) (tail : Str) (res : Sl) (err : Obj) (ch : Int) (st : St),
+    ∀ (fuel fm : Nat) (str resM : Text.Bytes) (res : Sl) (st : St),
       str.length < fuel → str.length ≤ fm → SWFs st res → base ≤ res.arr → res.isNil = false →
       view st res = ints resM →
-      ∃ tail' res' err' ch' st',
-        FactsProg.unquoteString_loop1 X fuel (ints str) tail res err ch st =
-          .ok (ints (PV.unquoteLoop fm str resM).2, tail', res', err', ch') st' ∧
+      ∃ res' st',
+        FactsProg.unquoteString_loop1 X fuel (ints str) res st =
+          .ok (ints (PV.unquoteLoop fm str resM).2, res') st' ∧
         Keeps base st st' ∧ SWFs st' res' ∧ base ≤ res'.arr ∧ view st' res' = ints (PV.unquoteLoop fm str resM).1 ∧
         res'.isNil = false := by
   intro fuel
   induction fuel with
-  | zero => intro fm str resM tail res err ch st hf; omega
+  | zero => intro fm str resM res st hf; omega
   | succ fuel ih =>
-    intro fm str resM tail res err ch st hf hfm w hb hn hv
+    intro fm str resM res st hf hfm w hb hn hv
     rw [FactsProg.unquoteString_loop1]
     simp only [ite_apply, bind_apply, pure_apply]
     cases str with
     | nil =>
-      have e : PV.unquoteLoop fm [] resM = (resM, []) := by cases fm <;> simp [PV.unquoteLoop]
-      rw [e]
-      simp only [ints_nil, decide_true, if_true]
-      exact ⟨_, _, _, _, _, rfl, Keeps.refl _ _, w, hb, hv, hn⟩
+      rw [unquoteLoop_nil]
+      have hnil : ints [] = ([] : Str) := rfl
+      go_decide_text [hnil]
+      exact ⟨_, _, rfl, Keeps.refl _ _, w, hb, hv, hn⟩
     | cons c r =>
       obtain ⟨fm, rfl⟩ : ∃ k, fm = k + 1 := ⟨fm - 1, by simp at hfm; omega⟩
       have hne : ¬ ints (c :: r) = ([] : Str) := by simp
+      have hne' : ints (c :: r) ≠ ([] : Str) := hne
       have hidx : Go.strIdx (ints (c :: r)) 0 st = .ok (c : Int) st := rfl
-      rw [PV.unquoteLoop, if_neg (by simp)]
-      go_decide_text [hidx]
       by_cases c1 : c = 13 ∨ c = 10
-      · have c1' : ((c :: r).head? = some 13 || (c :: r).head? = some 10) = true := by
-          simp only [List.head?_cons, Option.some.injEq, Bool.or_eq_true, decide_eq_true_eq]; exact c1
-        rw [if_pos c1']
+      · rw [unquoteLoop_break fm c r resM c1]
         rcases c1 with c1 | c1 <;> subst c1 <;>
-        · go_decide_text []
-          exact ⟨_, _, _, _, _, rfl, Keeps.refl _ _, w, hb, hv, hn⟩
-      · have c1' : ¬ ((c :: r).head? = some 13 || (c :: r).head? = some 10) = true := by
-          simp only [List.head?_cons, Option.some.injEq, Bool.or_eq_true, decide_eq_true_eq]; exact c1
-        rw [if_neg c1']
-        have hx := hX (c :: r)
-        simp only [Go.unquoteChar]
+        · go_decide_text [hidx]
+          exact ⟨_, _, rfl, Keeps.refl _ _, w, hb, hv, hn⟩
+      · have hx := hX (c :: r)
         cases hm : PV.unquoteChar (c :: r) 34 with
         | none =>
+          rw [unquoteLoop_none fm c r resM c1 hm]
           rw [hm] at hx
           cases hxx : X.unquoteChar (ints (c :: r)) 34 with
           | some t => rw [hxx] at hx; simp at hx
           | none =>
             have hnil : (Obj.named "strconv.ErrSyntax").isNil = false := rfl
-            go_decide_text [hnil]
-            exact ⟨_, _, _, _, _, rfl, Keeps.refl _ _, w, hb, hv, hn⟩
+            go_decide_text [hidx, Go.unquoteChar, hxx, hnil]
+            exact ⟨_, _, rfl, Keeps.refl _ _, w, hb, hv, hn⟩
         | some pr =>
           obtain ⟨chm, tailm⟩ := pr
+          rw [unquoteLoop_some fm c r resM c1 chm tailm hm]
           rw [hm] at hx
           cases hxx : X.unquoteChar (ints (c :: r)) 34 with
           | none => rw [hxx] at hx; simp at hx
@@ -153,37 +193,31 @@ theorem loop_tie (X : Ext) (hX : UnquoteRel X) (base : Nat) :
             have hkp := hk.pos
             have hkl := hk.le
             have hnil : Obj.nil.isNil = true := rfl
-            simp only []
-            go_decide_text [hnil, strLen_ints]
             by_cases c2 : chm = Utf8.runeError ∧ (c :: r).length - tailm.length = 1
-            · have c2' : (chm = Utf8.runeError && (c :: r).length - tailm.length = 1) = true := by
-                simp only [Bool.and_eq_true, decide_eq_true_eq]; exact c2
-              rw [if_pos c2']
+            · rw [if_pos c2]
               have a1 : (chm : Int) = 65533 := by have := c2.1; simp only [Utf8.runeError] at this; omega
               have a2 : ((c :: r).length : Int) - (tailm.length : Int) = 1 := by omega
-              go_decide_text []
-              exact ⟨_, _, _, _, _, rfl, Keeps.refl _ _, w, hb, hv, hn⟩
-            · have c2' : ¬ (chm = Utf8.runeError && (c :: r).length - tailm.length = 1) = true := by
-                simp only [Bool.and_eq_true, decide_eq_true_eq]; exact c2
-              rw [if_neg c2']
+              go_decide_text [hidx, Go.unquoteChar, hxx, hnil, strLen_ints]
+              exact ⟨_, _, rfl, Keeps.refl _ _, w, hb, hv, hn⟩
+            · rw [if_neg c2]
               have a3 : ¬ ((chm : Int) = 65533 ∧ ((c :: r).length : Int) - (tailm.length : Int) = 1) := by
                 intro ⟨h1, h2⟩
                 apply c2
                 refine ⟨by simp only [Utf8.runeError]; omega, by omega⟩
               obtain ⟨res2, st2, e2, k2, v2, w2, hb2, _, hn2⟩ :=
                 appendList_spec st res (ints (Utf8.encodeRune chm)) base w hb hn
-              obtain ⟨tail', res', err', ch', st', e3, k3, w3, hb3, v3, hn3⟩ :=
-                ih fm tailm (resM ++ Utf8.encodeRune chm) (ints tailm) res2 Obj.nil (chm : Int) st2
+              obtain ⟨res', st', e3, k3, w3, hb3, v3, hn3⟩ :=
+                ih fm tailm (resM ++ Utf8.encodeRune chm) res2 st2
                   (by simp only [List.length_cons] at hf htl hkl; omega) (by simp only [List.length_cons] at hfm htl hkl; omega)
                   w2 hb2 hn2 (by rw [v2, hv, ints_append])
               have happ : Go.appendStr res (Go.runeStr (chm : Int)) st = .ok res2 st2 := by
                 rw [runeStr_nat]; exact e2
               by_cases a4 : (chm : Int) = 65533
               · have a5 : ¬ ((c :: r).length : Int) - (tailm.length : Int) = 1 := fun h => a3 ⟨a4, h⟩
-                go_decide_text [happ, e3]
-                exact ⟨_, _, _, _, _, rfl, k2.trans k3, w3, hb3, v3, hn3⟩
-              · go_decide_text [happ, e3]
-                exact ⟨_, _, _, _, _, rfl, k2.trans k3, w3, hb3, v3, hn3⟩
+                go_decide_text [hidx, Go.unquoteChar, hxx, hnil, strLen_ints, happ, e3]
+                exact ⟨_, _, rfl, k2.trans k3, w3, hb3, v3, hn3⟩
+              · go_decide_text [hidx, Go.unquoteChar, hxx, hnil, strLen_ints, happ, e3]
+                exact ⟨_, _, rfl, k2.trans k3, w3, hb3, v3, hn3⟩
 
 /-! ### unquoteString -/
 
@@ -201,43 +235,72 @@ theorem mkSlice_spec (st : St) (i : Nat) :
     rw [this]; simp
   · simp [view]
 
+/-- the model's answer when the scan stops at index `i` and the second phase runs from there -/
+def phase2M (bs : Text.Bytes) (i : Nat) : Option Text.Bytes × Nat :=
+  if (PV.unquoteLoop bs.length (bs.drop i) (bs.take i)).2.length = bs.length then (none, 0)
+  else (some (PV.unquoteLoop bs.length (bs.drop i) (bs.take i)).1, bs.length - (PV.unquoteLoop bs.length (bs.drop i) (bs.take i)).2.length)
+
 /-- **unquoteString**: the translated function (for a world whose UnquoteChar is the model's) is, in the sense of
     `FnRel`, the model's `unquoteString`: it never panics, writes to nothing that existed, and returns a slice that shows
     the model's value (nil for `none`) and the model's length -/
 theorem tie_unquoteString (X : Ext) (hX : UnquoteRel X) : FnRel (FactsProg.unquoteString X) PV.unquoteString := by
   intro st s bs hv hl hne hnil hcap
   have hlen : Go.len s = (bs.length : Int) := by simp [Go.len, hl]
+  have hn0 : bs.length ≠ 0 := fun h => hne (List.length_eq_zero_iff.mp h)
   have hsp := PV.unquoteScan_spec bs 0
-  have hs := scan_tie X st s bs hv hl (Int.toNat (Go.len s + 128 + Go.len s) + 1) 0 0 rfl (by rw [hlen]; omega) (by omega)
-  simp only [List.drop_zero] at hs
   unfold FactsProg.unquoteString
   simp only [bind_apply]
-  unfold PV.unquoteString
-  rcases hsc : PV.unquoteScan bs 0 with ⟨i, c⟩
-  rw [hsc] at hs hsp
-  simp only [Nat.zero_add] at hs hsp
-  obtain ⟨_, hi, hc2, hc0⟩ := hsp
-  obtain ⟨s0, s1a, s1b, s2⟩ := hs
-  match c, hc2, hc0, s0, s1a, s1b, s2 with
-  | 0, _, hc0, s0, _, _, _ =>
-    have := hc0 rfl
-    subst this
-    rw [s0 rfl]
+  -- the fuel of the scan, whatever expression the translator computed for it: it exceeds the length
+  generalize hfu : (Int.toNat _ + 1 : Nat) = fuel
+  have hfuel : bs.length < fuel := by rw [hlen] at hfu; omega
+  have hs := scan_tie X st s bs hv hl fuel 0 0 rfl (by omega) (by omega)
+  simp only [List.drop_zero] at hs
+  -- the four ways the scan can end, against the model
+  have ana :
+      (FactsProg.unquoteString_loop2 X s fuel 0 st = .ok (some (s, (bs.length : Int)), (bs.length : Int)) st ∧
+        PV.unquoteString bs = (some bs, bs.length)) ∨
+      (FactsProg.unquoteString_loop2 X s fuel 0 st = .ok (some (Go.nilSl, 0), 0) st ∧ PV.unquoteString bs = (none, 0)) ∨
+      (∃ i : Nat, i ≠ 0 ∧ i ≤ bs.length ∧
+        FactsProg.unquoteString_loop2 X s fuel 0 st =
+          (do let s' ← Go.slice s 0 (i : Int); pure (some (s', (i : Int)), (i : Int)) : M _) st ∧
+        PV.unquoteString bs = (some (bs.take i), i)) ∨
+      (∃ i : Nat, i ≤ bs.length ∧ FactsProg.unquoteString_loop2 X s fuel 0 st = .ok (none, (i : Int)) st ∧
+        PV.unquoteString bs = phase2M bs i) := by
+    unfold PV.unquoteString phase2M
+    rcases hsc : PV.unquoteScan bs 0 with ⟨i, c⟩
+    rw [hsc] at hs hsp
+    simp only [Nat.zero_add] at hs hsp
+    obtain ⟨_, hi, hc2, hc0⟩ := hsp
+    obtain ⟨s0, s1a, s1b, s2⟩ := hs
+    match c, hc2, hc0, s0, s1a, s1b, s2 with
+    | 0, _, hc0, s0, _, _, _ =>
+      have := hc0 rfl
+      subst this
+      rcases s0 rfl with e | e
+      · exact .inl ⟨e, rfl⟩
+      · refine .inr (.inr (.inr ⟨bs.length, Nat.le_refl _, e, ?_⟩))
+        simp [unquoteLoop_nil, hn0.symm]
+    | 1, _, _, _, s1a, s1b, _ =>
+      by_cases h0 : i = 0
+      · exact .inr (.inl ⟨by have := s1a rfl h0; subst h0; exact this, by simp [h0]⟩)
+      · exact .inr (.inr (.inl ⟨i, h0, hi, s1b rfl h0, by simp [h0]⟩))
+    | 2, _, _, _, _, _, s2 =>
+      exact .inr (.inr (.inr ⟨i, hi, s2 rfl, rfl⟩))
+  rcases ana with ⟨hL, hM⟩ | ⟨hL, hM⟩ | ⟨i, h0, hi, hL, hM⟩ | ⟨i, hi, hL, hM⟩
+  · rw [hL, hM]
     exact ⟨s, st, rfl, Grows.refl st, hnil, hv, hl⟩
-  | 1, _, _, _, s1a, s1b, _ =>
-    simp only []
-    by_cases h0 : i = 0
-    · rw [if_pos h0, s1a rfl h0]
-      exact ⟨_, st, rfl, Grows.refl st, rfl, rfl⟩
-    · rw [if_neg h0, s1b rfl h0]
-      obtain ⟨s', e1, v1, l1, n1, _⟩ := slice_view st s 0 i (by omega) (by omega) hcap
-      simp only [Int.natCast_zero] at e1
-      simp only [bind_apply, pure_apply, e1]
-      refine ⟨s', st, rfl, Grows.refl st, by rw [n1, hnil], ?_, ?_⟩
-      · rw [v1, hv, List.drop_zero, ← ints_take]; simp
-      · rw [l1]; simp only [List.length_take]; omega
-  | 2, _, _, _, _, _, s2 =>
-    rw [s2 rfl]
+  · rw [hL, hM]
+    exact ⟨_, st, rfl, Grows.refl st, rfl, rfl⟩
+  · rw [hL, hM]
+    obtain ⟨s', e1, v1, l1, n1, _⟩ := slice_view st s 0 i (by omega) (by omega) hcap
+    simp only [Int.natCast_zero] at e1
+    simp only [bind_apply, pure_apply, e1]
+    refine ⟨s', st, rfl, Grows.refl st, by rw [n1, hnil], ?_, ?_⟩
+    · rw [v1, hv, List.drop_zero, ← ints_take]; simp
+    · rw [l1]; simp only [List.length_take]; omega
+  · -- a normal exit of the scan at index i (≤ the length): the second phase, behind a test `i >= len(b)` or not
+    rw [hL, hM]
+    unfold phase2M
     simp only []
     -- str := string(b[i:])
     obtain ⟨t5, e5, v5, _⟩ := sliceFrom_view st s i (by omega)
@@ -253,30 +316,62 @@ theorem tie_unquoteString (X : Ext) (hX : UnquoteRel X) : FnRel (FactsProg.unquo
     obtain ⟨r1, st2, e8, k2, v8, w1, hb1, _, n1⟩ :=
       appendList_spec st1 r0 (ints (bs.take i)) st.arrays.length w0 (by omega) n0
     have e8' : Go.appendSl r0 t4 st1 = .ok r1 st2 := by simp only [Go.appendSl, v7']; exact e8
-    -- the loop
-    obtain ⟨tail', res', err', ch', st3, e9, k3, w3, hb3, v3, n3⟩ :=
-      loop_tie X hX st.arrays.length
-        (Int.toNat (Go.strLen (ints (bs.drop i)) + Go.strLen ([] : Str) + Go.len r1) + 1) bs.length (bs.drop i) (bs.take i)
-        [] r1 Obj.nil 0 st2
-        (by simp only [strLen_ints, List.length_drop]; simp only [Go.strLen, Go.len]; omega)
+    -- the loop, with whatever fuel the translator computed (it exceeds the length of the rest)
+    have hloop : ∀ fuel2, (bs.drop i).length < fuel2 → ∃ res' st3,
+        FactsProg.unquoteString_loop1 X fuel2 (ints (bs.drop i)) r1 st2 =
+          .ok (ints (PV.unquoteLoop bs.length (bs.drop i) (bs.take i)).2, res') st3 ∧
+        Keeps st.arrays.length st2 st3 ∧ SWFs st3 res' ∧ st.arrays.length ≤ res'.arr ∧
+        view st3 res' = ints (PV.unquoteLoop bs.length (bs.drop i) (bs.take i)).1 ∧ res'.isNil = false :=
+      fun fuel2 h2 => loop_tie X hX st.arrays.length fuel2 bs.length (bs.drop i) (bs.take i) r1 st2 h2
         (by simp only [List.length_drop]; omega) w1 hb1 n1 (by rw [v8, v0]; simp)
-    simp only [bind_apply, Go.sliceTo, e5, hstr, e6, e7, e8', e9]
     have hle : (PV.unquoteLoop bs.length (bs.drop i) (bs.take i)).2.length ≤ bs.length := by
       obtain ⟨k, _, h2, _⟩ := PV.unquoteLoop_inv bs.length (bs.drop i) (bs.take i)
       rw [h2]; simp only [List.length_drop]; omega
-    generalize PV.unquoteLoop bs.length (bs.drop i) (bs.take i) = lr at v3 hle ⊢
-    obtain ⟨resM, strM⟩ := lr
-    simp only [] at v3 hle ⊢
-    have g3 : Grows st st3 := (k1.trans (k2.trans k3)).grows
-    simp only [strLen_ints, hlen, ite_apply, pure_apply]
-    by_cases c3 : strM.length = bs.length
-    · rw [if_pos c3]
-      go_decide_text []
-      exact ⟨_, st3, rfl, g3, rfl, rfl⟩
-    · rw [if_neg c3]
-      go_decide_text []
-      refine ⟨res', st3, ?_, g3, n3, v3, ?_⟩
-      · congr 2; omega
-      · have := w3.view_length; rw [v3] at this; simpa using this.symm
+    have hend0 : i = bs.length → (PV.unquoteLoop bs.length (bs.drop i) (bs.take i)) = (bs, []) := by
+      intro h; subst h; simp [unquoteLoop_nil]
+    by_cases hi' : i = bs.length
+    · -- at the very end: either the test after the scan answers (b, len(b)), or the second phase copies b
+      have hlr := hend0 hi'
+      subst hi'
+      rw [hlr] at hloop ⊢
+      simp only [List.length_nil, hn0.symm, if_false, Nat.sub_zero]
+      first
+        | (go_decide_text [hlen]
+           exact ⟨s, st, rfl, Grows.refl st, hnil, hv, hl⟩)
+        | (simp only [bind_apply, Go.sliceTo, e5, hstr, e6, e7, e8']
+           generalize hfu2 : (Int.toNat _ + 1 : Nat) = fuel2
+           have hfuel2 : (bs.drop bs.length).length < fuel2 := by
+             simp only [strLen_ints, Go.len] at hfu2; simp only [List.length_drop]; omega
+           obtain ⟨res', st3, e9, k3, w3, hb3, v3, n3⟩ := hloop fuel2 hfuel2
+           simp only [e9]
+           have g3 : Grows st st3 := (k1.trans (k2.trans k3)).grows
+           have hs0 : Go.strLen ([] : Str) = 0 := rfl
+           simp only [ints_nil, hs0, hlen, ite_apply, pure_apply, List.length_nil]
+           go_decide_text []
+           refine ⟨res', st3, ?_, g3, n3, v3, ?_⟩
+           · congr 2 <;> omega
+           · have := w3.view_length; rw [v3] at this; simpa using this.symm)
+    · have hlt : i < bs.length := by omega
+      go_decide_text [hlen]
+      simp only [bind_apply, Go.sliceTo, e5, hstr, e6, e7, e8']
+      generalize hfu2 : (Int.toNat _ + 1 : Nat) = fuel2
+      have hfuel2 : (bs.drop i).length < fuel2 := by
+        simp only [strLen_ints, Go.len] at hfu2; simp only [List.length_drop] at hfu2 ⊢; omega
+      obtain ⟨res', st3, e9, k3, w3, hb3, v3, n3⟩ := hloop fuel2 hfuel2
+      simp only [e9]
+      generalize PV.unquoteLoop bs.length (bs.drop i) (bs.take i) = lr at v3 hle ⊢
+      obtain ⟨resM, strM⟩ := lr
+      simp only [] at v3 hle ⊢
+      have g3 : Grows st st3 := (k1.trans (k2.trans k3)).grows
+      simp only [strLen_ints, hlen, ite_apply, pure_apply]
+      by_cases c3 : strM.length = bs.length
+      · rw [if_pos c3]
+        go_decide_text []
+        exact ⟨_, st3, rfl, g3, rfl, rfl⟩
+      · rw [if_neg c3]
+        go_decide_text []
+        refine ⟨res', st3, ?_, g3, n3, v3, ?_⟩
+        · congr 2; omega
+        · have := w3.view_length; rw [v3] at this; simpa using this.symm
 
 end PV.TxtTie
